@@ -45,7 +45,7 @@ type scheduler struct {
 	deadlock bool
 	// scheduling policy (see pick): 0 lowest-numbered first, 1 highest-numbered first, 2 round robin
 	policy int
-	acks     chan struct{}
+	acks   chan struct{}
 }
 
 var sch *scheduler
